@@ -722,6 +722,7 @@ Section MapStepSafe.
     assert (0 <= zn n)%Z by (unfold zn; lia).
     destruct b; [lia|].
     unfold wadd. rewrite wrap_small by (rewrite two_p_64; lia).
+    rewrite ?Z.shiftr_div_pow2 by lia. change (2 ^ 1)%Z with 2%Z.
     split; [apply Z.div_pos; lia|]. apply Z.div_lt_upper_bound; lia.
   Qed.
   (* ---------------------------------------------------------------------------------------- *)
